@@ -261,6 +261,7 @@ type ProtoOutcome struct {
 	DiedByErr bool
 	DiedByBad bool
 	Aborted   bool
+	Lingered  int // connections ended by the service while the client kept its end open
 	ExpFrames [][]ExpFrame
 	ExpInvs   [][]ExpInv
 }
@@ -308,6 +309,13 @@ func ExecProto(c ProtoCase, bound time.Duration) (*ProtoOutcome, error) {
 		}
 	}
 	var wg sync.WaitGroup
+	var lingerMu sync.Mutex
+	var lingering []net.Conn
+	defer func() {
+		for _, l := range lingering {
+			l.Close()
+		}
+	}()
 	for k := range c.Conns {
 		cc := c.Conns[k]
 		fr := make([][]byte, len(cc.Frames))
@@ -352,7 +360,17 @@ func ExecProto(c ProtoCase, bound time.Duration) (*ProtoOutcome, error) {
 		wg.Add(1)
 		go func(k int, conn net.Conn, stream []byte, alive, abort bool, nexp int) {
 			defer wg.Done()
-			defer conn.Close()
+			// a connection that the SERVICE has to end (bad frame, handler error) is kept open on the client side until
+			// the service has released it: ending a connection must not depend on the peer hanging up as well
+			defer func() {
+				if !alive && !abort && !c.Conns[k].NoRead {
+					lingerMu.Lock()
+					lingering = append(lingering, conn)
+					lingerMu.Unlock()
+					return
+				}
+				conn.Close()
+			}()
 			if !abort {
 				// the sentinel (a GetInfo call) is always appended: when the model says the connection
 				// survives, its reply fences all negative observations; when the model says the service
@@ -449,8 +467,18 @@ func ExecProto(c ProtoCase, bound time.Duration) (*ProtoOutcome, error) {
 		base = 1
 	}
 	if !p.waitActive(base, bound) {
+		if len(lingering) > 0 {
+			return out, fmt.Errorf("active-connection count is %d, want %d (waited %v): %d connection(s) that the service had to end are still accounted as open while their clients have not hung up - the service's side was not released", p.svc.VerifActiveConnections(), base, bound, len(lingering))
+		}
 		return out, fmt.Errorf("active-connection count is %d, want %d, %v after all test connections ended", p.svc.VerifActiveConnections(), base, bound)
 	}
+	lingerMu.Lock()
+	for _, l := range lingering {
+		l.Close()
+	}
+	out.Lingered = len(lingering)
+	lingering = nil
+	lingerMu.Unlock()
 	if c.Probe {
 		if err := probeGetInfo(probe, p.cfg, bound); err != nil {
 			return out, fmt.Errorf("after the test traffic: %v", err)
